@@ -16,6 +16,7 @@ import array
 import copy
 import json
 import math
+import os
 
 from .. import core, sessions
 
@@ -124,6 +125,23 @@ def gen_history(st):
                                     "max_dist": rng.choice(["inf", 2.0, 4.0])}); objs += 1
             elif k < 36:
                 programs[s].append({"op": "new_km", "obj": objs, "k": 1 + rng.below(2), "dict": dref(), "use_c": bool(rng.below(2))}); objs += 1
+            elif k < 38:
+                # concurrent callers: 2-3 threads, each running a short private program (no object is shared between them)
+                progs = []
+                for _t in range(2 + rng.below(2)):
+                    kk = rng.below(10)
+                    if kk < 5:
+                        progs.append([{"op": "pair", "fn": rng.choice(PAIR_FNS), "a": ref(), "b": ref(), "opts": dref(), "use_c": rng.below(4) == 0}])
+                    elif kk < 6:
+                        progs.append([{"op": "npair", "fn": rng.choice(NPAIR_FNS), "a": nref(), "b": nref(), "opts": dref(), "use_c": rng.below(4) == 0}])
+                    elif kk < 8:
+                        progs.append([{"op": "matrix", "cont": rng.below(len(conts)), "opts": dref(), "use_c": rng.below(4) == 0, "compact": bool(rng.below(2)), "block": None, "fast": False}])
+                    elif kk < 9:
+                        progs.append([{"op": "dba", "cont": rng.below(len(conts)), "c": ref(), "use_c": False, "max_it": 1 + rng.below(2), "loop": bool(rng.below(2))}])
+                    else:
+                        progs.append([{"op": "new_sa", "obj": 0, "q": ref(), "s": ref(), "penalty": rng.choice([0.0, 0.1]), "use_c": False},
+                                      {"op": "use", "obj": 0, "k": rng.choice([1, 2, None]), "cont": 0, "npseed": 1, "pyseed": 1}])
+                programs[s].append({"op": "threads", "progs": progs, "tseed": rng.u64(), "one_in": rng.choice([3, 8, 20, 60])})
             else:
                 if objs:
                     programs[s].append({"op": "use", "obj": rng.below(objs), "k": rng.choice([1, 2, 3, None]), "cont": rng.below(len(conts)),
@@ -461,6 +479,45 @@ def run_op(pool, op, alone):
         return ["exc", type(exc).__name__]
 
 
+def run_threads(setup, op, bump, obs, opi):
+    """Concurrent callers on PRIVATE objects: every thread gets its own freshly materialised pool, so nothing is shared
+    except the library itself.  Each thread's results must equal those of the same program run alone."""
+    import dtaidistance
+    from .. import threadsim
+    progs = op["progs"]
+    nconts = len(setup["conts"])
+    progs = [[o for o in pr if o.get("cont", 0) < nconts] for pr in progs]
+    progs = [pr for pr in progs if pr]
+    if len(progs) < 2:
+        return None
+
+    def runner(pool, prog):
+        def f():
+            return [run_op(pool, o, alone=True) for o in prog]
+        return f
+
+    alone = [runner(Pool(setup), pr)() for pr in progs]
+    pools = [Pool(setup) for _ in progs]
+    sim = threadsim.ThreadSim(core.Rng(op["tseed"]), os.path.dirname(os.path.abspath(dtaidistance.__file__)), switch_one_in=op.get("one_in", 12))
+    res = sim.run([runner(pl, pr) for pl, pr in zip(pools, progs)])
+    bump("op:threads")
+    bump("threads:callers", len(progs))
+    bump("threads:line_events", sim.nevents)
+    bump("fault:thread_preemptions_inside_library_calls", sim.nswitches)
+    obs.append([opi, "threads", core.hash_obj([list(x) for x in sim.log]), core.digest_value([r[1] if r[0] == "ok" else r for r in res])])
+    for ti, (r, exp) in enumerate(zip(res, alone)):
+        got = r[1] if r[0] == "ok" else ["exc", r[1]]
+        if not same_exact(got, exp):
+            return {"class": "concurrent-call-interference",
+                    "detail": "caller thread %d of %d ran %s interleaved with the other callers (%d pre-emptions, all objects private) and got %s; alone it gets %s"
+                              % (ti, len(progs), json.dumps(progs[ti])[:200], sim.nswitches, str(got)[:120], str(exp)[:120])}
+    for pl in pools:
+        ch = pl.changed()
+        if ch is not None:
+            return {"class": "input-modified", "detail": "concurrent callers: resource %s modified" % ch}
+    return None
+
+
 def _is_exc(r):
     return isinstance(r, list) and len(r) == 2 and r[0] == "exc"
 
@@ -490,6 +547,14 @@ def execute(history):
         if kind in ("dba", "new_ss") and op["cont"] >= len(pool.conts):
             continue
         if kind == "use" and op["cont"] >= len(pool.conts):
+            continue
+        if kind == "threads":
+            try:
+                v = run_threads(setup, op, bump, obs, opi)
+            except Exception as exc:  # noqa
+                raise core.HarnessError("thread simulation: %r" % (exc,))
+            if v is not None:
+                add(v, opi)
             continue
         try:
             with sessions.op_timeout(OP_WALL):
@@ -550,6 +615,8 @@ def signature(history, viol):
         feats.append(op["op"])
         if "fn" in op:
             feats.append(op["fn"])
+        if op["op"] == "threads":
+            feats.append("+".join(sorted({pr[0].get("fn", pr[0]["op"]) for pr in op["progs"] if pr})))
         if op["op"] == "use":
             cr = next((o for o in ops if o["op"].startswith("new_") and o.get("obj") == op["obj"]), None)
             if cr:
@@ -596,6 +663,22 @@ def shrink(h):
             if key in op and op[key] != val:
                 ops = copy.deepcopy(h["ops"]); ops[i][key] = val
                 out.append({"setup": copy.deepcopy(setup), "ops": ops})
+    for i, op in enumerate(h["ops"]):
+        if op["op"] == "threads":
+            if len(op["progs"]) > 2:
+                for d in range(len(op["progs"])):
+                    ops = copy.deepcopy(h["ops"]); del ops[i]["progs"][d]
+                    out.append({"setup": copy.deepcopy(setup), "ops": ops})
+            for ti, pr in enumerate(op["progs"]):
+                for o in pr:
+                    for key in ("a", "b", "c", "q", "s"):
+                        if isinstance(o.get(key), list) and o[key][1] != "nd":
+                            ops = copy.deepcopy(h["ops"])
+                            for o2 in ops[i]["progs"][ti]:
+                                if isinstance(o2.get(key), list):
+                                    o2[key][1] = "nd"
+                            out.append({"setup": copy.deepcopy(setup), "ops": ops})
+                            break
     if len({o.get("s") for o in h["ops"]}) > 1:
         ops = copy.deepcopy(h["ops"])
         for o in ops:
